@@ -61,4 +61,41 @@ TEXT = {
         "note": "Before any message of a sender was seen, a reference is demanded only inside both candidate windows (announcement counter / end of key window).",
         "technique": "runtime monitoring: executable reference-window model checked online against random mixed push/log histories",
     },
+    "C03": {
+        "text": "Exploration: for every event type of the protocol table (read at run time) and three group types a forgery catalogue (wrong signer key of each kind, signer swapped after signing, every bit flip of the signature, seeded flips of payload and box, "
+                "missing signature, unknown types, other group's secret, member-device variants, malformed envelopes) is opened with the real openGroupEnvelope and appended to the live log of a victim replica; a marker event gives logical quiescence; "
+                "the monitor checks that no forged entry reaches subscribers and that the getter snapshot is unchanged, with the correctly signed event as positive control.",
+        "note": "Behaviour under the catalogued forgeries, not a proof of the signature scheme. A valid event that is dropped makes the run inconclusive (positive control), it is not reported as a violation of this property.",
+        "technique": "runtime monitoring: forgery catalogue against real stores; event-bus and index-getter snapshot oracle at marker-defined quiescence",
+    },
+    "C04": {
+        "text": "Exploration: histories of metadata operations (exhaustive over a reduced alphabet up to length 2-3, seeded random up to length 10-14; one writer, two causally ordered writers, two concurrent writers; account, contact and multi-member groups) are written through the real "
+                "MetadataStore API and replayed on fresh replicas by delivery plans (one batch, entry by entry, random compositions, both head orders) with a reopen at a random step and repeated re-indexing; every delivered prefix is compared with a reference latest-wins index, all replicas with the full set with each other.",
+        "note": "Each history uses a fresh synthetic group object; delivery is a real OrbitDB replication batch (Sync + replicator) between stores sharing one mock IPFS node. Viewer-dependent parts (secrets-sent set, other member's alias) are not compared across members.",
+        "technique": "runtime monitoring: reference-model and replica-equality oracle over delivery plans, reopen and re-index of real OrbitDB logs",
+    },
+    "C06": {
+        "text": "Exploration: the real RequestUsingReaderWriter/ResponseUsingReaderWriter run against a scripted adversary that owns its own account: honest run, wrong target, 24 low-order/non-canonical X25519 encodings on either side alone and combined with cross-session replay of harvested proofs, "
+                "observer replay, reflection, a man in the middle applying bit flips/truncation/oversize/duplication/drop to every frame, foreign identity key types, negative acknowledge. The oracle tracks which private keys the peer held in the session.",
+        "note": "Attacks outside the catalogue are outside the evidence; the manager layer (contact announced after the handshake) is covered by the service-level checks.",
+        "technique": "runtime monitoring: scripted adversary + authentication oracle ('reported key => private half held in this session')",
+    },
+    "C07": {
+        "text": "Exploration, exhaustive for small bounds: every sequence of the seven contact operations on one contact up to length 4 (5 in thorough), sequences on two contacts (every sequence of length 4 in thorough) and long random sequences with malformed arguments are executed on real account-group stores; "
+                "after every call the monitor compares error/appended event/log growth and every contact getter with the lifecycle table of DESIGN.md appendix A; after every session the group is reopened and its log replayed on a second replica.",
+        "note": "The reference is the table of appendix A, implemented independently of the index code.",
+        "technique": "runtime monitoring: executable lifecycle table checked after every operation over exhaustive bounded and random operation sequences",
+    },
+    "C13": {
+        "text": "Exploration, exhaustive for the parameter cube: logs of 0..6 (12 in thorough) entries in the metadata and the message store, held by the writer, by replicas fed entry by entry, in one batch, in mixed batches and after reopening; for every log EVERY (since, until, reverse) "
+                "with bounds in {nil, each entry, unknown id} is listed through ListEvents and compared with the inclusive range of the causal order; the RPC layer (GroupMetadataList/GroupMessageList with until_now, parameter-consistency errors) is driven on a service instance.",
+        "note": "Single-writer logs (causal order = write order).",
+        "technique": "runtime monitoring: reference range oracle over the complete (since, until, reverse) cube on real replicated logs",
+    },
+    "C17": {
+        "text": "Exploration: 20k-200k random (topic, seed, instant, interval) tuples incl. period boundaries for the pure functions; seeded rotation histories of two RotationInterval instances on a virtual clock (rotation.go's time.Now/time.Until are redirected by the build overlay) "
+                "crossing 0..many period boundaries with registration in different periods, judged by a period model; the same between two real OrbitDBMessageMarshaler instances; a thorough-tier real-time run with 1-2 s intervals whose observations are bracketed by clock reads.",
+        "note": "Instants >= 1970 and whole-second intervals. The grace-period cleanup timer runs on the real clock and does not fire during a history.",
+        "technique": "runtime monitoring: period reference model over virtual-clock rotation histories and random pure-function inputs",
+    },
 }
